@@ -51,6 +51,25 @@ pub fn machines(opts: &Opts) -> Vec<MCfg> {
         m.clear_vias = vec![0];
         m
     };
+    {
+        let rl = vec![
+            LeafSpec { dims: vec![3], vals: vec![1.0, -2.0, 3.0 + var as f64], tracked: true },
+            LeafSpec { dims: vec![1, 3], vals: vec![2.0, 1.0, -1.0], tracked: true },
+            LeafSpec { dims: vec![1, 3], vals: vec![1.0, 10.0, 100.0], tracked: false },
+        ];
+        let mut m = base_cfg("accumulate/rank-mismatch", rl, vec![OpK::Add, OpK::Mul], 6);
+        m.bounds = Bounds { builds: 3, passes: 1, depth: 4, ..Bounds::default() };
+        m.check_snapshot = true;
+        m.check_ref = true;
+        m.seeds = vec![0, 3];
+        out.push(m);
+        let mut m = base_cfg("accumulate/three-passes", crate::checks::c10::same_shape_leaves(var), vec![OpK::Add, OpK::Mul], 6);
+        m.bounds = Bounds { builds: 1, passes: 3, fetches: 2, depth: 6, ..Bounds::default() };
+        m.check_snapshot = true;
+        m.check_ref = true;
+        m.seeds = vec![0];
+        out.push(m);
+    }
     match opts.tier {
         Tier::Quick => {
             out.push(mk(
